@@ -108,16 +108,44 @@ func ruleMailboxTransform(c *Ctx, rule string) {
 		}
 		// provenance: Extract #0 of a call of (*encoding.Decoder).String
 		okProv := false
-		isDecoded := func(v ssa.Value) bool {
-			if ex, ok := v.(*ssa.Extract); ok && ex.Index == 0 {
+		var isDecodedD func(v ssa.Value, depth int) bool
+		isDecodedD = func(v ssa.Value, depth int) bool {
+			if ex, ok := v.(*ssa.Extract); ok {
 				if call, ok := ex.Tuple.(*ssa.Call); ok {
-					if o := calleeObj(call); o != nil && o.Name() == "String" && o.Pkg() != nil && strings.HasSuffix(o.Pkg().Path(), "x/text/encoding") {
+					if o := calleeObj(call); o != nil && ex.Index == 0 && o.Name() == "String" && o.Pkg() != nil && strings.HasSuffix(o.Pkg().Path(), "x/text/encoding") {
 						return true
+					}
+					// a helper that returns the decoder's output (or the
+					// constant INBOX) on every successful return
+					if h := staticCallee(call); h != nil && h.Blocks != nil && inModule(h) && depth > 0 {
+						nres := h.Signature.Results().Len()
+						some := false
+						for _, r := range returnsOf(h) {
+							if ex.Index >= len(r.Results) {
+								return false
+							}
+							if nres > 1 && isErrorType(h.Signature.Results().At(nres-1).Type()) && !isNilConst(unspill(r.Results[nres-1])) {
+								if _, isExtr := unspill(r.Results[nres-1]).(*ssa.Extract); !isExtr {
+									continue // a failure return
+								}
+							}
+							rv := unspill(r.Results[ex.Index])
+							if s, ok := constString(rv); ok && s == "INBOX" {
+								some = true
+								continue
+							}
+							if !isDecodedD(rv, depth-1) {
+								return false
+							}
+							some = true
+						}
+						return some
 					}
 				}
 			}
 			return false
 		}
+		isDecoded := func(v ssa.Value) bool { return isDecodedD(v, 2) }
 		v := st.Val
 		if isDecoded(v) {
 			okProv = true
@@ -2857,6 +2885,38 @@ func ruleCapsInvalidation(c *Ctx, rule string, want []string) {
 		for _, t := range caseTypesReaching(site.Block()) {
 			got[t] = true
 		}
+		// the list of command types may live in a predicate
+		// (`if … && invalidatesCaps(cmd) { c.setCaps(nil) }`): the types for
+		// which the predicate returns true
+		if caller := site.Parent(); caller != nil {
+			pd := postDominators(caller)
+			for x := range transitiveDeps(caller, pd, site.Block()) {
+				ifi, isIf := x.Instrs[len(x.Instrs)-1].(*ssa.If)
+				if !isIf {
+					continue
+				}
+				for _, a := range atomsOf(ifi.Cond, true) {
+					call, ok := a.V.(*ssa.Call)
+					if !ok || a.True == 0 {
+						continue
+					}
+					h := staticCallee(call)
+					if h == nil || h.Blocks == nil || !inModule(h) {
+						continue
+					}
+					for _, r := range returnsOf(h) {
+						if len(r.Results) != 1 {
+							continue
+						}
+						if k, ok := unspill(r.Results[0]).(*ssa.Const); ok && k.Value != nil && k.Value.String() == "true" {
+							for _, t := range caseTypesReaching(r.Block()) {
+								got[t] = true
+							}
+						}
+					}
+				}
+			}
+		}
 		pos = site.Pos()
 	}
 	if n == 0 {
@@ -2871,26 +2931,56 @@ func ruleCapsInvalidation(c *Ctx, rule string, want []string) {
 		c.check(len(missing) == 0, rule, "capabilities invalidated after "+strings.Join(want, ", "), pos, "setCaps(nil) is reached in the case of each of these command types",
 			"the cached capability list is not invalidated on completion of "+strings.Join(missing, ", ")+": capabilities learnt before (in plaintext, or for the other authentication state) keep steering what the client sends")
 	}
-	// (2)
+	// (2) the store may sit in an unexported helper of setCaps
 	var store *ssa.Store
-	allInstrs(setCaps, func(i ssa.Instruction) {
-		if st, ok := i.(*ssa.Store); ok {
-			if r, ok := fieldOf(st.Addr); ok && r.is("Client", "caps") {
-				store = st
+	var holder *ssa.Function
+	for _, g := range helperClosure(setCaps, 2) {
+		allInstrs(g, func(i ssa.Instruction) {
+			if st, ok := i.(*ssa.Store); ok {
+				if r, ok := fieldOf(st.Addr); ok && r.is("Client", "caps") {
+					store, holder = st, g
+				}
 			}
-		}
-	})
+		})
+	}
 	if store == nil {
 		c.unresolvedRoot("store to Client.caps in setCaps")
 		return
 	}
-	uncond := true
-	for _, r := range returnsOf(setCaps) {
-		if !store.Block().Dominates(r.Block()) {
-			uncond = false
+	dominatesReturns := func(fn *ssa.Function, b *ssa.BasicBlock) bool {
+		for _, r := range returnsOf(fn) {
+			if !b.Dominates(r.Block()) {
+				return false
+			}
 		}
+		return true
 	}
-	fromParam := len(setCaps.Params) == 2 && (store.Val == ssa.Value(setCaps.Params[1]) || paramOf(store.Val) == setCaps.Params[1])
+	uncond := dominatesReturns(holder, store.Block())
+	fromParam := false
+	if holder == setCaps {
+		fromParam = len(setCaps.Params) == 2 && (store.Val == ssa.Value(setCaps.Params[1]) || paramOf(store.Val) == setCaps.Params[1])
+	} else {
+		// the helper stores its own parameter, and setCaps hands it its argument on every path
+		idx := -1
+		for k, q := range holder.Params {
+			if store.Val == ssa.Value(q) || paramOf(store.Val) == q {
+				idx = k
+			}
+		}
+		called := false
+		for _, site := range callSitesOf(p, holder) {
+			if site.Parent() != setCaps {
+				continue
+			}
+			args := site.Common().Args
+			_, isDefer := site.(*ssa.Defer)
+			if idx >= 0 && idx < len(args) && len(setCaps.Params) == 2 && (args[idx] == ssa.Value(setCaps.Params[1]) || paramOf(args[idx]) == setCaps.Params[1]) &&
+				(isDefer && site.Block() == setCaps.Blocks[0] || dominatesReturns(setCaps, site.Block())) {
+				called = true
+			}
+		}
+		fromParam = called
+	}
 	c.check(uncond && fromParam, rule, "setCaps stores its argument unconditionally", store.Pos(), "c.caps = caps on every path",
 		"setCaps does not always replace the cached list by its argument (e.g. it keeps the old list when asked to invalidate): the encoder keeps using LITERAL+/UTF-8 forms the server stopped advertising")
 }
